@@ -2,7 +2,9 @@
 """t8_mutants.py — semantic mutants INSIDE the subset of pass T8 (each a one-line edit of a regenerated function that still
 compiles): for each, re-run the translator on a scratch clone and rebuild the Lean module that proves the function equal to
 its model; the theorem must break.  Works in /tmp/mutT8 (a scratch copy of /verif); not a registered command.
-Last run: 20 of 20 break the corresponding *_regenerated theorem (see DESIGN.md section 10)."""
+Last full run: 20 of 20 break the corresponding *_regenerated theorem (see DESIGN.md section 10); the two added later
+(FromPublicKey, ToPublicSecp256k1) were run by hand in a staging copy: both break theirs. The proof files were split after the
+full run, so some module names below name the file a theorem used to live in."""
 import subprocess, os, shutil, json, re
 GOENV=dict(os.environ, GOFLAGS="-mod=mod", GOPROXY="off", GOSUMDB="off", GOTOOLCHAIN="local")
 V="/tmp/mutT8/verif"
@@ -26,6 +28,8 @@ muts=[
  ("derive-il-no-mod","ecckd/extended.go","\t\t\til = il.Mod(il, mod)\n","","Secp.Proofs.DriversDerive"),
  ("bruteforce-3-codes","signature.go","for i := byte(0); i < 4; i++ {","for i := byte(0); i < 3; i++ {","Secp.Proofs.DriversBrute"),
  ("setbyteslice-pad-right","modnscalar.go","\tcopy(b32[32-len(b):], b)\n\tresult := s.SetBytes(&b32)","\tcopy(b32[:], b)\n\tresult := s.SetBytes(&b32)","Secp.Proofs.DriversWrap"),
+ ("frompublickey-cc-lt","ecckd/extended.go","if len(chainCode) != 32 {","if len(chainCode) < 32 {","Secp.Proofs.FrontFromPub"),
+ ("topublicsecp-keydata","ecckd/extended.go","return secp256k1.ParsePubKey(k.pubKeyBytes())","return secp256k1.ParsePubKey(k.KeyData)","Secp.Proofs.FrontFromPub"),
  ("signer-compact-offset27","sign.go","return sig.ExportCompact(true, 0), nil","return sig.ExportCompact(true, 27), nil","Secp.Proofs.DriversFront"),
 ]
 res=[]
